@@ -44,14 +44,18 @@ theorem envOf_sound (r : Re) (hwf : WF r) (hsz : (emit false r 0).1.length < 320
   constructor
   · intro L hL
     obtain ⟨f, md, hr, hm⟩ := g1 L hL
-    obtain ⟨s0, k1, k2, k3, k4, k5⟩ := match_sound e hfb hseg hmatch hentry hr hm
+    obtain ⟨s0, k1, k2, k4, k5⟩ := match_sound e (fwdByteDir e hfb) hseg hmatch hentry hr hm
+    have k6 := (lower_sem hwf _ _).1 (irm_fwd e k5)
+    have k2' : e.start + _ ≤ e.buf.size := k2
     rw [hbuf, hstart, hfl] at *
-    exact ⟨s0, k1, k2, k3, k4, (lower_sem hwf _ _).1 k5⟩
+    exact ⟨start + s0, by omega, by omega, k2', fun hh => by rw [k4 hh]; rfl, k6⟩
   · intro hm0
     obtain ⟨f, md, hr, hm⟩ := g2 hm0
-    obtain ⟨s0, k1, k2, k3, k4, k5⟩ := match_sound e hfb hseg hmatch hentry hr hm
+    obtain ⟨s0, k1, k2, k4, k5⟩ := match_sound e (fwdByteDir e hfb) hseg hmatch hentry hr hm
+    have k6 := (lower_sem hwf _ _).1 (irm_fwd e k5)
+    have k2' : e.start + _ ≤ e.buf.size := k2
     rw [hbuf, hstart, hfl] at *
-    exact ⟨s0, k1, k2, k3, k4, (lower_sem hwf _ _).1 k5⟩
+    exact ⟨start + s0, by omega, by omega, k2', fun hh => by rw [k4 hh]; rfl, k6⟩
 
 /-- soundness of the VM on the code emitted for a well-formed expression (byte mode, forwards, any nocase / dot-all flags,
     exhaustive or not, string verification = not scan mode): every reported length is a match length of the expression at
